@@ -27,6 +27,7 @@ use std::fmt::Write as _;
 use std::sync::Mutex;
 
 static BODIES: Mutex<Vec<(u32, String)>> = Mutex::new(Vec::new());
+static DUMPED: Mutex<Vec<u32>> = Mutex::new(Vec::new());
 
 // ---------------------------------------------------------------- JSON helpers
 fn jstr(out: &mut String, s: &str) {
@@ -906,11 +907,49 @@ impl<'a, 'tcx> BodyDump<'a, 'tcx> {
 }
 
 fn dump_body<'tcx>(tcx: TyCtxt<'tcx>, def: LocalDefId, body: &Body<'tcx>, promoted: Option<&rustc_index::IndexVec<Promoted, Body<'tcx>>>) {
+    {
+        let mut d = DUMPED.lock().unwrap();
+        let idx = def.local_def_index.as_u32();
+        if d.contains(&idx) {
+            return;
+        }
+        d.push(idx);
+    }
     let cx = Cx { tcx, krate: tcx.crate_name(LOCAL_CRATE).to_string() };
     let tenv = TypingEnv::post_analysis(tcx, def.to_def_id());
     let bd = BodyDump { cx: &cx, body, def, tenv, promoted };
     let s = bd.dump();
     BODIES.lock().unwrap().push((def.local_def_index.as_u32(), s));
+}
+
+fn layout_json<'tcx>(cx: &Cx<'tcx>, layout: &CoroutineLayout<'tcx>, o: &mut String) {
+    o.push_str("\"fields\":[");
+    for (i, (idx, f)) in layout.field_tys.iter_enumerated().enumerate() {
+        if i > 0 {
+            o.push(',');
+        }
+        let name = layout.field_names.get(idx).and_then(|n| n.map(|s| s.to_string()));
+        let sp = cx.ws_span(f.source_info.span);
+        let _ = write!(o, "[{},{},{}]", js(&cx.ty(f.ty)), jopt(&name), cx.line(sp));
+    }
+    o.push_str("],\"variants\":[");
+    for (i, (vidx, fields)) in layout.variant_fields.iter_enumerated().enumerate() {
+        if i > 0 {
+            o.push(',');
+        }
+        let si = layout.variant_source_info[vidx];
+        let sp = cx.ws_span(si.span);
+        let s4 = cx.span4(sp);
+        let _ = write!(o, "{{\"sp\":[{},{},{},{}],\"saved\":[", s4[0], s4[1], s4[2], s4[3]);
+        for (j, sl) in fields.iter().enumerate() {
+            if j > 0 {
+                o.push(',');
+            }
+            let _ = write!(o, "{}", sl.as_u32());
+        }
+        o.push_str("]}");
+    }
+    o.push(']');
 }
 
 // ---------------------------------------------------------------- whole-crate facts
@@ -1003,33 +1042,16 @@ fn dump_crate<'tcx>(tcx: TyCtxt<'tcx>) -> String {
         }
         first = false;
         let _ = write!(o, "{{\"id\":{}", js(&cx.path(def.to_def_id())));
-        o.push_str(",\"fields\":[");
-        for (i, (idx, f)) in layout.field_tys.iter_enumerated().enumerate() {
-            if i > 0 {
-                o.push(',');
-            }
-            let name = layout.field_names.get(idx).and_then(|n| n.map(|s| s.to_string()));
-            let sp = cx.ws_span(f.source_info.span);
-            let _ = write!(o, "[{},{},{}]", js(&cx.ty(f.ty)), jopt(&name), cx.line(sp));
+        o.push(',');
+        layout_json(&cx, layout, &mut o);
+        // precise layout computed by the state transform on drop-elaborated MIR
+        let opt = tcx.optimized_mir(def.to_def_id());
+        if let Some(l2) = opt.coroutine_layout_raw() {
+            o.push_str(",\"opt\":{");
+            layout_json(&cx, l2, &mut o);
+            o.push('}');
         }
-        o.push_str("],\"variants\":[");
-        for (i, (vidx, fields)) in layout.variant_fields.iter_enumerated().enumerate() {
-            if i > 0 {
-                o.push(',');
-            }
-            let si = layout.variant_source_info[vidx];
-            let sp = cx.ws_span(si.span);
-            let s4 = cx.span4(sp);
-            let _ = write!(o, "{{\"sp\":[{},{},{},{}],\"saved\":[", s4[0], s4[1], s4[2], s4[3]);
-            for (j, sl) in fields.iter().enumerate() {
-                if j > 0 {
-                    o.push(',');
-                }
-                let _ = write!(o, "{}", sl.as_u32());
-            }
-            o.push_str("]}");
-        }
-        o.push_str("]}");
+        o.push('}');
     }
     o.push(']');
     // --- ADTs, consts, statics, impls
